@@ -3,6 +3,7 @@ package main
 import (
 	"fmt"
 	"go/types"
+	"strconv"
 	"strings"
 
 	"golang.org/x/tools/go/ssa"
@@ -15,6 +16,7 @@ type heapNode struct {
 	prev *heapNode
 	keep func(addr Term) Term // havoc: condition under which the cell is unchanged
 	allocAt Term              // initial/havoc nodes: every reference stored in this version is <= allocAt
+	addr, val Term            // store nodes: the cell written and its new content
 }
 
 type closureInfo struct {
@@ -168,14 +170,100 @@ func (st *State) loadIn(sn *snapshot, sort string, addr Term) Term {
 			st.heaps[sort] = st.x.initHeaps[sort]
 		}
 	}
+	// store forwarding: when the cell was written on this path at a
+	// syntactically identical address (and every later write is to a provably
+	// different cell), the read yields the stored term itself
+	for n := h; n != nil && n.kind == 1; n = n.prev {
+		if n.addr == addr {
+			return n.val
+		}
+		if !distinctAddrs(n.addr, addr) {
+			break
+		}
+	}
 	st.instantiate(h, addr)
 	return st.x.d.FreshDef("ld", sort, tSel(h.name, addr))
+}
+
+// distinctAddrs: syntactic proof that two address terms denote different cells.
+func distinctAddrs(a, b Term) bool {
+	if !strings.HasPrefix(a, "(mkref ") || !strings.HasPrefix(b, "(mkref ") {
+		return false
+	}
+	ra, pa, ok1 := splitFirst(a[7 : len(a)-1])
+	rb, pb, ok2 := splitFirst(b[7 : len(b)-1])
+	if !ok1 || !ok2 {
+		return false
+	}
+	if ra != rb {
+		// two different objects allocated on this path
+		return strings.HasPrefix(ra, "alloc_") && strings.HasPrefix(rb, "alloc_") && ra != "alloc_0" && rb != "alloc_0"
+	}
+	return distinctPaths(pa, pb)
+}
+
+// distinctPaths: same root, statically different field/ghost steps.
+func distinctPaths(pa, pb Term) bool {
+	sa, roota := pathSteps(pa)
+	sb, rootb := pathSteps(pb)
+	if roota != rootb {
+		return false
+	}
+	n := len(sa)
+	if len(sb) < n {
+		n = len(sb)
+	}
+	for i := 0; i < n; i++ {
+		if sa[i] != sb[i] {
+			// both steps static (field or ghost with literal index)?
+			return staticStep(sa[i]) && staticStep(sb[i])
+		}
+	}
+	return len(sa) != len(sb) && false
+}
+
+func staticStep(s string) bool {
+	return strings.HasPrefix(s, "f:") || strings.HasPrefix(s, "g:")
+}
+
+// pathSteps decomposes (pfld (pfld ROOT 1) 2) into steps ["f:1","f:2"] and ROOT.
+func pathSteps(p Term) ([]string, Term) {
+	var rev []string
+	for {
+		var kind string
+		switch {
+		case strings.HasPrefix(p, "(pfld "):
+			kind = "f:"
+		case strings.HasPrefix(p, "(pgh "):
+			kind = "g:"
+		case strings.HasPrefix(p, "(pidx "):
+			kind = "i:"
+		default:
+			out := make([]string, len(rev))
+			for i := range rev {
+				out[i] = rev[len(rev)-1-i]
+			}
+			return out, p
+		}
+		body := p[strings.Index(p, " ")+1 : len(p)-1]
+		inner, idx, ok := splitFirst(body)
+		if !ok {
+			return nil, p
+		}
+		if kind == "i:" {
+			if _, err := strconv.Atoi(idx); err != nil {
+				kind = "x:" // dynamic index: not static
+			}
+		}
+		rev = append(rev, kind+idx)
+		p = inner
+	}
 }
 
 func (st *State) storeLeaf(sort string, addr, v Term) {
 	h := st.heapOf(st.heaps, sort)
 	name := st.x.d.FreshDef(heapSym(sort), "(Array Ref "+sort+")", tStore(h.name, addr, v))
-	st.heaps[sort] = &heapNode{name: name, sort: sort, kind: 1, prev: h}
+	st.heaps[sort] = &heapNode{name: name, sort: sort, kind: 1, prev: h, addr: addr, val: v}
 }
 
 func (st *State) havocHeap(sort string, keep func(addr Term) Term) {
@@ -273,7 +361,43 @@ func (st *State) loadValIn(sn *snapshot, addr Term, t types.Type) Val {
 		v.L[i] = st.loadIn(sn, l.Sort, extend(addr, l.Path))
 	}
 	st.assumeWF(v)
+	if ei, ok := st.x.elemInfo[addr]; ok {
+		if ar := st.x.appendInfo[ei.arr]; ar != nil {
+			st.copyAxiom(ar, ei, addr, t, 0)
+		}
+	}
 	return v
+}
+
+// copyAxiom: contents of a backing array produced by append, stated for the
+// element at addr in the heap as it was right after the append.
+func (st *State) copyAxiom(ar *appendRec, ei elemRef, addr Term, t types.Type, depth int) {
+	key := "append|" + addr
+	if st.instd[key] || depth > 3 {
+		return
+	}
+	st.instd[key] = true
+	len1, len2 := ar.s1[2], ar.s2[2]
+	in1 := tAnd("(<= 0 "+ei.idx+")", "(< "+ei.idx+" "+len1+")")
+	in2 := tAnd("(<= "+len1+" "+ei.idx+")", "(< "+ei.idx+" (+ "+len1+" "+len2+"))")
+	src1 := extendIdx(ar.s1[0], tAddInt(ar.s1[1], ei.idx))
+	src2 := extendIdx(ar.s2[0], tAddInt(ar.s2[1], "(- "+ei.idx+" "+len1+")"))
+	for _, l := range leavesOf(t) {
+		h := st.heapOf(ar.snap.heaps, l.Sort)
+		sel := func(a Term) Term {
+			st.instantiate(h, a)
+			return tSel(h.name, a)
+		}
+		a := extend(addr, l.Path)
+		st.assume(tImp(in1, tEq(sel(a), sel(extend(src1, l.Path)))))
+		st.assume(tImp(in2, tEq(sel(a), sel(extend(src2, l.Path)))))
+	}
+	// a source that is itself the result of an append: chain
+	for _, src := range []struct{ arr, addr, idx Term }{{ar.s1[0], src1, tAddInt(ar.s1[1], ei.idx)}, {ar.s2[0], src2, tAddInt(ar.s2[1], "(- "+ei.idx+" "+len1+")")}} {
+		if ar2 := st.x.appendInfo[src.arr]; ar2 != nil {
+			st.copyAxiom(ar2, elemRef{arr: src.arr, idx: src.idx}, src.addr, t, depth+1)
+		}
+	}
 }
 
 func (st *State) loadVal(addr Term, t types.Type) Val { return st.loadValIn(nil, addr, t) }
